@@ -21,11 +21,7 @@ Inductive op :=
 | OEncode (who : N) (f : frame) (cls : N) (bytes : list N)
 | ODecode (who : N) (stream : bool) (bs : list N) (cls : N) (fr : frame) (alloc : N)
 (* (Density(), IsVariable()) of data type codes 0..15 as the real telem package reports them *)
-| ODtTable (tbl : list (N * N))
-(* one raw websocket message handed to a fresh http/framer.Codec (dynamic codec, no channel set
-   negotiated yet) as message type kind: 0 writer request, 1 streamer response, 2 iterator
-   response (these three accept binary frames), 3.. JSON-only types *)
-| OHttp (kind : N) (bs : list N) (cls : N) (alloc : N).
+| ODtTable (tbl : list (N * N)).
 
 Definition model_dt_table : list (N * N) :=
   map (fun c => (density c, if is_variable c then 1 else 0))
@@ -123,16 +119,6 @@ Definition mstep (V : variant) (e : env) (o : op) : env * bool :=
                  (alloc <=? total + alloc_slack (lenN bs) (max_keys c') (n_states c'))))
       end
   | ODtTable tbl => (e, negb (eq_listNN tbl model_dt_table))
-  | OHttp kind bs cls alloc =>
-      (* binary path: first byte selects the codec; anything but 254 goes to the frame decoder
-         of a codec that was never updated. The JSON path is not modelled. *)
-      (e, if kind <? 3 then
-            match bs with
-            | [] => negb (cls =? EEOF)
-            | b :: r => if b =? 254 then false
-                        else negb (cls =? cls_of (fst (snd (c_decode V Sized (new_codec true) r))))
-            end
-          else false)
   end.
 
 Fixpoint mrun (V : variant) (e : env) (ops : list op) : bool :=
@@ -204,7 +190,6 @@ Definition vstep (e : env) (le : lastenc) (o : op) : env * lastenc * bool :=
           (env_set who c' e, le, bad_panic || bad_alloc || bad_rt)
       end
   | ODtTable _ => (e, le, false)
-  | OHttp kind bs cls alloc => (e, le, (cls =? cls_panic) || (alloc_budget (lenN bs) 0 0 <? alloc))
   end.
 
 Fixpoint vrun (e : env) (le : lastenc) (ops : list op) : bool :=
